@@ -49,6 +49,21 @@ CLAIMED = {
         'note': TB + ' Does not decide wall-clock latency ("within one polling interval").',
         'technique': 'custom static analysis: reaching-definition provenance, interval abstract interpretation with subdivision over the stated input domain, dominance-based ordering, poll-structure pairing',
     },
+    'C07': {
+        'text': 'Clause-limited static decision (level "other"): (1) every writer of the board array notifies the connected network evaluator '
+                'for exactly the squares it writes, forces a full refresh, or is a temporary variant confined to paired make/unmake helpers; '
+                'make/unmake push/pop the evaluator state with notifications disabled while pieces move back; (2) every append to the '
+                'incremental queues is bounded by the array extent and overflow forces a refresh; the refresh buffer holds all non-king men; '
+                '(3) cache-key completeness of evalPos: the contempt - the one non-position input - is mixed into the key exactly when it can '
+                'change the score; half-move clocks sharing a key share an evaluation bucket; material-hash key arithmetic unsigned; (4) the '
+                'endgame material cases are closed under colour mirror and every mirrored helper-call pair is a sigma-image (colour-swapped, '
+                'squares rotated, side inverted, score negated). Right level: purity and colour symmetry fail through a missed notification, '
+                'an incomplete key or an asymmetric case - all visible in the code for every history and position; numerical equality of '
+                'network outputs is value-level and not claimed.',
+        'design_ref': 'DESIGN.md section 2, C07',
+        'note': TB + ' Does not decide numerical equality of incremental vs fresh network outputs nor SIMD variant equality.',
+        'technique': 'custom static analysis: who-may-write + must-notify dataflow, bounded-write guards, cache-key (def-use) completeness, constant agreement, sigma-normalised sibling comparison of mirrored switch cases',
+    },
     'C08': {
         'text': 'Clause-limited static decision (level "other"): (1) raw slot words are touched only by the xor codec, the slot '
                 'constructors and the tablebase byte accessors; table[] is indexed only through getIndex(key)+i (i below the bucket '
